@@ -43,6 +43,8 @@ impl Prop for C14 {
         for init in ["absent", "empty", "keyring-nl", "keyring-no-nl", "keyring-comments", "keyring-crlf", "keyring-crlf-no-nl", "comment-only"] {
             for n in if th { vec![1usize, 2, 3, 5, 12] } else { vec![1usize, 2, 4] } { v.push(case(&[("init", init.into()), ("n", n.to_string()), ("seed", rng.next().to_string())])); }
         }
+        // two `key gen -o ring.txt` that overlap in time (one waits for its name while the other runs): both keys, and everything before
+        for init in ["absent", "keyring-nl", "keyring-no-nl"] { v.push(case(&[("init", init.into()), ("overlap", "1".into()), ("n", "2".into()), ("seed", rng.next().to_string())])); }
         for init in ["big-64k", "big-128k"] { if th || init == "big-64k" { v.push(case(&[("init", init.into()), ("n", "2".into()), ("seed", rng.next().to_string())])); } }
         v
     }
@@ -56,6 +58,24 @@ impl Prop for C14 {
         if getn(c, "seed") % 3 == 0 { for (i, f) in ["Bob", "Bob Smith", "bob", "Bo"].iter().enumerate() { if i < names.len() { names[i] = f.to_string(); } } if names.len() > 4 { names[4] = "y".repeat(127); } }
         names.dedup(); let mut seen = std::collections::HashSet::new(); names.retain(|x| seen.insert(x.clone()));
         let pws = ["", "pw", "pässwörd 🔑"];
+        if get(c, "overlap") == "1" {
+            let cur = initial(init);
+            let mut files = vec![]; if let Some(b) = &cur { files.push(("ring.txt".to_string(), b.clone())); }
+            let world = World { files, env: vec![("KESTREL_PASSWORD".into(), "pw".into())], stdin: vec![] };
+            let args = sv(&["key", "gen", "-o", "ring.txt", "--env-pass"]);
+            let (a, b) = crate::cli::run_kestrel_overlapped(&world, &args, b"first started\n", &args, b"second started\n");
+            o.validated += 2; o.nontrivial = Some(format!("overlap/{}", init)); o.tags.push(format!("init={}", init)); o.tags.push("two overlapping generations".into());
+            let label = format!("two overlapping `kestrel key gen -o ring.txt` into {} keyring (the first waits for its name while the second runs)", init);
+            if a.exit != Some(0) || b.exit != Some(0) { o.oracle_fail = Some(("generate-succeeds".into(), format!("{}: exits {:?} / {:?}: {} {}", label, a.exit, b.exit, a.stderr.trim(), b.stderr.trim()))); return o; }
+            let newf = a.file("ring.txt").cloned().unwrap_or_default();
+            if let Some(old) = &cur { if !newf.starts_with(old) { o.oracle_fail = Some(("earlier-contents-are-a-prefix".into(), format!("{}: the previous {} bytes are not a prefix of the new contents ({} bytes)", label, old.len(), newf.len()))); return o; } }
+            let parsed = rust_parse(&String::from_utf8_lossy(&newf));
+            let got: Vec<String> = if parsed.starts_with("ok ") { parsed[3..].split(';').filter(|x| !x.is_empty()).map(|e| e.split('|').next().unwrap_or("").to_string()).collect() } else { vec![] };
+            o.impl_obs = format!("{} bytes, parse {}, {} entries", newf.len(), &parsed[..parsed.len().min(3)], got.len()); o.model_obs = "both generated keys present after everything that was there".into();
+            if !parsed.starts_with("ok ") { o.oracle_fail = Some(("file-parses-as-keyring".into(), format!("{}: the resulting file is rejected by the keyring parser", label))); return o; }
+            for n in ["first started", "second started"] { if !got.contains(&hexd(n.as_bytes())) { o.oracle_fail = Some(("every-key-present-in-order".into(), format!("{}: both commands reported success but the key {:?} is not in the keyring afterwards ({} entries)", label, n, got.len()))); return o; } }
+            return o;
+        }
         let mut cur = initial(init);
         let before_entries: Vec<String> = match &cur { Some(b) => { let r = rust_parse(&String::from_utf8_lossy(b)); if r.starts_with("ok ") { r[3..].split(';').filter(|x| !x.is_empty()).map(|x| x.to_string()).collect() } else { vec![] } } None => vec![] };
         let mut expected_names: Vec<String> = before_entries.iter().map(|e| e.split('|').next().unwrap_or("").to_string()).collect();
